@@ -1,19 +1,28 @@
 chk('C05', 'exploration',
-    'bounded-exhaustive exploration of DAC and SAMPLER on the real code against a slot-by-slot reference waveform: EVERY bit word of '
-    'length 1..8 (quick 1..6) x 7 container forms (str, spaced str, list, tuple, int ndarray, bool ndarray, binary_sequence) x sps '
-    '{2,3,4,5,8,16,17,128} (thorough additionally 7,9,31,32,64,127) x 6 (quick 3) (Vout,bias) pairs incl. negative Vout, +-47.9 and None '
-    'x the 5 spellings of nrz/rz, whole waveform compared sample by sample, SAMPLER executed at EVERY instant k in [0,sps) on the waveform '
-    'with an index-coded noise vector (signal AND noise compared bit-exactly with explicitly indexed samples) followed by the sign-aware '
-    'threshold decision at bias+Vout/2; Gaussian: sps {8,9,16,17,32,64,128} x EVERY integer T in [ceil(sps/2),2sps] x m 1..4 on the '
-    'isolated one 0001000 (peak position, peak value 5 %, half-maximum width 1 sample) and every word x every integer T in '
-    '[ceil(sps/2),sps] x m for the inversion at k=sps//2; SAMPLER on generic real/complex/noise-free records of lengths that are not '
-    'multiples of sps; every documented TypeError/ValueError for Vout, bias, T, m, c and unknown shapes, one wrong argument at a time',
-    'continuum quantifiers (all Vout/bias in (-48,48), all sps in 2..128) are covered at the listed alphabet points only; words longer '
-    'than 8 bits are not run (slots are independent for nrz/rz; for the Gaussian shape 8 slots exceed the +-4-slot pulse support only '
-    'partly); the slot centre is taken as the mean sample index (sps-1)/2 of the slot and the peak position as the midpoint of the samples '
-    'within 1e-9 of the maximum; |Vout| or |bias| exactly 48 may be rejected or accepted; numpy scalar types, bool, None and '
-    'integer-valued floats for T/m and the BW (low-pass) stage are outside the statement and not exercised',
+    'bounded-exhaustive exploration of the real DAC and SAMPLER against a slot-by-slot reference waveform. rect: EVERY bit word of length '
+    '1..6 (quick) / 1..8 (thorough) x 20 container forms / bit dtypes (str, lists, tuple, 9 write-protected ndarray dtypes, '
+    'binary_sequence; 13 of them with nrz / rz only) x sps {2,3,4,5,8,16,17,128} (thorough + 7,9,31,32,64,127) x 3 / 6 (Vout,bias) pairs '
+    'incl. negative Vout, +-47.9, None x 5 spellings of nrz / rz, plus every word of length 1..3 / 1..5 x 12 edge amplitudes (np.float64, '
+    'nextafter(48,0), 1e-12..1e-3): whole waveform per slot; SAMPLER at EVERY instant k in [0,sps) (k as int / np.int64 / int32 / intp) '
+    'on the waveform with an index-coded noise vector, signal AND noise bit-exact against indexed samples (on the 7 basic forms); '
+    'sign-aware threshold at bias+Vout/2 returns the word (every k nrz, k < sps//2 rz); the decision fed to DAC again. Gaussian: sps '
+    '{8,9,16,17,32,64,128} x EVERY integer T in [ceil(sps/2),2sps] x m 1..4 on 14 words of isolated ones (gauss.iso; amplitudes other '
+    'than (1,0) on 0001000 only) and on 14 / 60 mixed words holding isolated ones AND runs of adjacent ones (gauss.mix): peak position 1 '
+    'sample, peak value 5 %, half-maximum width 1 sample; EVERY sps 8..128 at the T / m limits and with T, m omitted; gauss.inv: every '
+    'word x T in [ceil(sps/2),sps] x m inverted at k=sps//2. rect.mix: the mixed words in nrz / rz. long: 11 structured / seeded patterns '
+    'x 12 lengths 7..4097 (thorough 27, ..8192) x 3 shapes. sampler: write-protected generic records of 32 kinds (dtypes '
+    'bool..complex128, mixed-dtype / zero / no noise, scales 1e-12..1e6) x 17-19 lengths up to 4097 x every k, result sampled again. '
+    'grid: EVERY sps 2..128 x 17 gv call forms; reconf: 540 a -> b -> a grid changes without clean. valid: 8 591 cases (documented '
+    'TypeError / ValueError for Vout, bias, T, m, c, shape names; in-range boundary values accepted). quick 78 914 cases (0.50 M DAC, '
+    '4.49 M SAMPLER calls); thorough 387 142. Shared call-history part: 5 calls x 3 grids',
+    'continuum quantifiers (Vout/bias in (-48,48), T, sps) are covered at the listed alphabet points only (sps 2..128 completely only in '
+    'the thin grid slice and at the T / m limits); exhaustive words stop at 8 bits (6 quick), longer words are structured patterns; slot '
+    'centre = mean sample index (sps-1)/2, peak position = midpoint of the samples within 1e-9 of the maximum, isolated 1 = no other one '
+    'within 6 slots; Gaussian inverse only for T <= sps; |Vout| or |bias| exactly 48 may be rejected or accepted; non-float64 numpy '
+    'scalars, 0-d arrays, bool, Fraction, integer-valued float T / m: TypeError or the correct waveform both accepted; case / white-space '
+    'variants of shape names: ValueError or the documented waveform; narrow / unsigned numpy k, nan, the BW low-pass waveform, chirp c != '
+    '0, SAMPLER on optical signals and ragged bit containers are outside the statement and not asserted',
     'full-product enumeration with differential oracle (hand-built slot reference, explicit index arithmetic for SAMPLER, interpolated '
-    'half-maximum crossings for the Gaussian pulse), tolerances = rounding bound for slot values, bit-exact for SAMPLER, the bands of '
-    'the statement for the Gaussian pulse',
+    'half-maximum crossings for the Gaussian pulse), tolerances = rounding bound for slot values, bit-exact for SAMPLER, the bands of the '
+    'statement for the Gaussian pulse',
     'DESIGN.md 5/C05')
